@@ -670,4 +670,30 @@ theorem ordnn_active_pyIn {env : Env} {c : Consts} {choices : List Val} {log : B
   unfold pyIn
   exact List.any_eq_true.mpr ⟨act[i - fp], List.getElem_mem hj, hpe⟩
 
+/-! ### the hypotheses are satisfiable: a concrete encoder with an active sub-range -/
+namespace NNExample
+
+/-- a stand-in `Env` (`log` = identity, strictly monotone) -/
+def env : Env := ⟨⟨id, id⟩, ⟨id, id⟩, ⟨id, id⟩⟩
+def consts : Consts := ⟨1 / 100000000, 499 / 1000, 1 / 100⟩
+def isOk {α} : Except Err α → Bool
+  | .ok _ => true
+  | .error _ => false
+
+example : LogMono env true := fun _ _ _ _ h => h
+
+example : isOk (mkOrdNN env consts [.int 1, .int 2, .int 4, .int 8] false
+    (some [.int 2, .int 4])) = true := by decide +kernel
+
+example : isOk (mkOrdNN env consts [.flt (1/2), .flt 2, .flt 4, .flt 8] true
+    (some [.flt (1/2), .flt 2])) = true := by decide +kernel
+
+example : firstPos [.int 1, .int 2, .int 4, .int 8] (some [.int 2, .int 4]) = .ok (some 1) := by
+  decide +kernel
+
+example : (NNDom.mk [.int 1, .int 2, .int 4, .int 8] false).cast env (.int 4) = .ok (.int 4) :=
+  nn_cast_self (by decide +kernel) (fun h => by cases h) (by simp)
+
+end NNExample
+
 end SyneTune.Dom
